@@ -284,7 +284,7 @@ def plan(tier):
     return {'shards': 16, 'budget_s': 600}
 
 
-SIZES = {'quick': dict(n=8000), 'thorough': dict(n=120000)}
+SIZES = {'quick': dict(n=8000), 'thorough': dict(n=300000)}
 PINNED = ['```\na\n\nb\n```\n', '<pre>\na\n\nb\n</pre>\n', '<!--\n\nc\n-->\nx\n', '    code\n\n    more\n\ntext\n', 'a | b\n--|--\nc | d\n',
           '[l]: /u "t"\n\n[l] text\n', '- a\n- b\n\n  c\n', '1. x\n   > q\n', 'p\nlazy\n\n> q\nlazy\n', '# h\n***\n', '~~~ info\n x\n~~~\n', 'a  \nb\\\nc\n']
 
